@@ -343,3 +343,57 @@ func designateNeoFSAlphabet(ctx, prm) (err)
     invariant xcalls("checkRole").len == old(xcalls("checkRole")).len ==> xcalls("notary.Actor.Notarize").len == old(xcalls("notary.Actor.Notarize")).len
     invariant xcalls("checkRole").len > old(xcalls("checkRole")).len ==> !roleOK(old(xcalls("checkRole")).len)
 @*/
+
+/*@
+module nnsupdate
+props C13
+dialect go64
+
+// C13 ("running the procedure again ... updates nothing"): the NNS update stage works on the contract with ID 1; it
+// reports success only when the committee's update call of this contract was refused as "already updated" (the on-chain
+// executable is the supplied one); one Notary request per update transaction made; and a call whose first pre-check is
+// refused as already updated sends nothing.
+func (x blockchainMonitor) waitForNextBlock(ctx) (err)
+  trusted
+  pure
+  logged
+
+func newTransactionGroupMonitor(w) (r)
+  trusted
+  pure
+
+func (x transactionGroupMonitor) isPending() (r)
+  trusted
+  pure
+
+func (x transactionGroupMonitor) trackPendingTransactionsAsync(ctx, vub, txs)
+  trusted
+  pure
+  logged
+
+func readNNSOnChainState(b) (r, err)
+  view nnsinit
+  logged
+  ensures true
+
+// whether an error says that the contract refused the update as already done (a string test on the error text, only named here)
+ufun alreadyUpdated(e Any) Bool
+func isErrContractAlreadyUpdated(err) (r)
+  trusted
+  pure
+  ensures r == alreadyUpdated(err)
+
+pure refused(k Int) Bool = !isnil(cres2("actor.Actor.MakeTunedCall", k)) && alreadyUpdated(cres2("actor.Actor.MakeTunedCall", k))
+
+func updateNNSContract(ctx, prm) (err)
+  ensures [C13] isnil(err) ==> xcalls("actor.Actor.MakeTunedCall").len > old(xcalls("actor.Actor.MakeTunedCall")).len && refused(xcalls("actor.Actor.MakeTunedCall").len - 1)
+  ensures [C13] xcalls("notary.Actor.Notarize").len - old(xcalls("notary.Actor.Notarize")).len <= xcalls("actor.Actor.MakeTunedCall").len - old(xcalls("actor.Actor.MakeTunedCall")).len
+  ensures [C13] xcalls("actor.Actor.MakeTunedCall").len > old(xcalls("actor.Actor.MakeTunedCall")).len && refused(old(xcalls("actor.Actor.MakeTunedCall")).len)
+        ==> xcalls("notary.Actor.Notarize").len == old(xcalls("notary.Actor.Notarize")).len
+  loop 0
+    invariant xcalls("actor.Actor.MakeTunedCall").len >= old(xcalls("actor.Actor.MakeTunedCall")).len
+    invariant xcalls("notary.Actor.Notarize").len >= old(xcalls("notary.Actor.Notarize")).len
+    invariant xcalls("notary.Actor.Notarize").len - old(xcalls("notary.Actor.Notarize")).len <= xcalls("actor.Actor.MakeTunedCall").len - old(xcalls("actor.Actor.MakeTunedCall")).len
+    invariant xcalls("actor.Actor.MakeTunedCall").len == old(xcalls("actor.Actor.MakeTunedCall")).len ==> xcalls("notary.Actor.Notarize").len == old(xcalls("notary.Actor.Notarize")).len
+    invariant xcalls("actor.Actor.MakeTunedCall").len > old(xcalls("actor.Actor.MakeTunedCall")).len ==> !refused(old(xcalls("actor.Actor.MakeTunedCall")).len)
+@*/
